@@ -35,7 +35,9 @@ func deepInstrsScope(root *ssa.Function, depth int, prune func(*ssa.Function) bo
 		if scope != nil {
 			return scope(cal)
 		}
-		return rootFn(cal).Pkg == rootFn(root).Pkg
+		// the root's own package, or a helper of the module that blocks only under the context it is handed
+		// (chans.RecvContext(ctx, c)): a select written out in another package
+		return rootFn(cal).Pkg == rootFn(root).Pkg || ctxBlockingHelper(curCtx, origin(cal))
 	}
 	var out []deepInstr
 	var walk func(fn *ssa.Function, site ssa.Instruction, chain []*ssa.Call, seen map[*ssa.Function]bool, d int)
@@ -183,6 +185,18 @@ func fieldsOfKind(c *Ctx, rel, typ string, pred func(t types.Type) bool) []strin
 	for i := 0; i < st.NumFields(); i++ {
 		if pred(st.Field(i).Type()) {
 			out = append(out, canonField(tn.Type(), st.Field(i).Name()))
+			continue
+		}
+		// a group of fields moved into a struct of the package that is embedded by value (Group.live roster{m, wg}): the
+		// fields of that struct count as the type's own
+		if nt, ok := st.Field(i).Type().(*types.Named); ok && nt.Obj().Pkg() == p.Types {
+			if inner, ok := nt.Underlying().(*types.Struct); ok {
+				for j := 0; j < inner.NumFields(); j++ {
+					if pred(inner.Field(j).Type()) {
+						out = append(out, canonField(nt, inner.Field(j).Name()))
+					}
+				}
+			}
 		}
 	}
 	return out
